@@ -65,10 +65,18 @@ func (f *c5forest) uid(i int) string {
 	return "" // NoPropErr
 }
 
+// c5val spells a value property: val -1 stands for a property whose own value is nil (it still shadows and still has an owner)
+func c5val(p c5prop) string {
+	if p.val == -1 {
+		return "nil"
+	}
+	return fmt.Sprint(p.val)
+}
+
 func c5propSrc(name string, p c5prop) string {
 	switch p.kind {
 	case "value":
-		return fmt.Sprintf("%s: %d", name, p.val)
+		return fmt.Sprintf("%s: %s", name, c5val(p))
 	case "func":
 		return fmt.Sprintf(`%s: {|r, x| ["f%d", r.uid, x]}`, name, p.val)
 	case "method":
@@ -86,7 +94,7 @@ func init() {
 		Level: "exploration",
 		Rule: "histories of 3–12 definitions building a prototype forest (object literals, p.bear({…}), p.bear, o.bro({…})) with properties from a small alphabet incl. private names — values, functions, methods and _missing at every depth, shadowing patterns — interleaved with up to 40 queries: o.name, o.name(arg), o['name], which, proto, ancestors, kindOf?, keys, keys(private?: true); every object has a unique own uid so owners and receivers are identified without relying on structural equality. " +
 			"Oracle: the forest model. distinct = distinct (query kind, resolution class ∈ {own, inherited, shadowed, absent→_missing, absent→NoPropErr, built-in owner}, property kind, depth) tuples judged; non-trivial = every judged query" +
-			" Added: bear/bro whose props come from an existing object, forests rooted at values of other types (arr, str, int, float, range), list-chain calls over 2–4 receivers with 0–6 arguments, scalar calls with 1–5 arguments. Sixth round: forests rooted at nil; the same call spelled `&.` and `=.`.",
+			" Added: own properties whose value is nil (they shadow, have an owner for which, and drop out of list-chain results), bear/bro whose props come from an existing object, forests rooted at values of other types (arr, str, int, float, range), list-chain calls over 2–4 receivers with 0–6 arguments, scalar calls with 1–5 arguments. Sixth round: forests rooted at nil; the same call spelled `&.` and `=.`.",
 		Assumptions: []string{
 			"model: first hit walking o, proto(o), … Obj, BaseObj; else the first _missing in the same order called with (receiver, name, args…); else NoPropErr; callable → invoked receiver-first, non-callable → returned as is; o['name] and which return nil for an absent name",
 			"kindOf? is only queried against objects with an own uid (and Obj/BaseObj), because its `==` is structural",
@@ -160,6 +168,9 @@ func runC05(w *fw.W) {
 					continue
 				}
 				p := c5prop{kind: []string{"value", "value", "func", "method", "func0"}[rng.Intn(5)], val: 1000 + id*10 + len(props)}
+				if p.kind == "value" && rng.Intn(6) == 0 {
+					p.val = -1 // nil-valued own property
+				}
 				props[name] = p
 				parts = append(parts, c5propSrc(name, p))
 			}
@@ -290,7 +301,7 @@ func runC05(w *fw.W) {
 			callResult := func(arg string) (string, string) {
 				switch {
 				case found && p.kind == "value":
-					return fmt.Sprint(p.val), ""
+					return c5val(p), ""
 				case found && p.kind == "func":
 					return fmt.Sprintf(`["f%d", %s, %s]`, p.val, uidIns, arg), ""
 				case found && p.kind == "method":
@@ -312,7 +323,7 @@ func runC05(w *fw.W) {
 				}
 				switch {
 				case fj && pj.kind == "value":
-					return fmt.Sprint(pj.val), "", true
+					return c5val(pj), "", true
 				case fj && pj.kind == "func":
 					return fmt.Sprintf(`["f%d", %s, %s]`, pj.val, u, arg), "", true
 				case fj && pj.kind == "method":
@@ -376,7 +387,9 @@ func runC05(w *fw.W) {
 					if e != "" && werr == "" {
 						werr = e
 					}
-					wants = append(wants, want)
+					if want != "nil" { // a list chain leaves nil results out (docs: chains); only a nil-valued property answers nil here
+						wants = append(wants, want)
+					}
 				}
 				src := "[" + strings.Join(els, ", ") + "]@" + name
 				if nargs > 0 {
@@ -407,7 +420,7 @@ func runC05(w *fw.W) {
 			case q == 4:
 				switch {
 				case found && p.kind == "value":
-					expect("o['name]", class, on+"['"+name+"]", fmt.Sprint(p.val), "")
+					expect("o['name]", class, on+"['"+name+"]", c5val(p), "")
 				case !found:
 					expect("o['name]", class, on+"['"+name+"]", "nil", "")
 				}
